@@ -170,10 +170,10 @@ def stepC11 (d : DSt) (op : String) (got : String) : StepResult DSt :=
   | ["new", k, smtu, rmtu] =>
     -- send-side leg: blocks go through the sendFrame of a real transport with MTU <smtu>; the MTU
     -- <rmtu> of the receiving transport (possibly lower) must not matter
-    if k == "tcpo" && smtu.toNat?.isSome && rmtu.toNat?.isSome then
+    if (k == "tcpo" || k == "tcpa") && smtu.toNat?.isSome && rmtu.toNat?.isSome then
       -- the real OUTGOING TCP transport sends; the face is closed right after the last block while the peer
       -- (slow reader, small window) still lags: what was sent before the close must all arrive
-      { st := { kind := .sockS, sendMtu := smtu.toNat?.getD 0 }, expected := some "ok", cov := ["new-tcpo"] }
+      { st := { kind := .sockS, sendMtu := smtu.toNat?.getD 0 }, expected := some "ok", cov := [s!"new-{k}"] }
     else
     if k == "tcpb" && smtu.toNat?.isSome && rmtu.toNat?.isSome then
       -- back-pressure leg: a real TCP transport sends to a peer that reads nothing for <rmtu> ms
